@@ -379,7 +379,11 @@ class TrajectoryCalc:
         # region Trajectory Loop
         warnings.simplefilter("once")  # used to avoid multiple warnings in a loop
         it = 0  # iteration counter
-        while range_vector.x <= maximum_range + min_step:
+        # Keep integrating until the point beyond maximum_range has been fed to the recorder: with a tail wind the
+        # ground advance of one step can exceed calc_step, so `x <= maximum_range + min_step` alone can stop before
+        # the row at a record distance <= maximum_range has been interpolated
+        while (range_vector.x <= maximum_range + min_step
+               or (filter_flags and record_step > 0 and data_filter.next_record_distance <= maximum_range)):
             it += 1
             data_filter.clear_current_flag()
 
